@@ -48,6 +48,7 @@ type c04World struct {
 	selfSchedulesInRepeating           int
 	zeroDelayAfterOwnCancel            int
 	fractionalDelays                   int
+	createdInOwnCallbackAfterClose     int
 	zeroDelayNotInline                 int
 	inRepeatingCallbackOf              map[*c04Timer]int
 	firedThisPoll                      int
@@ -87,6 +88,15 @@ func (x *c04World) behave(self *c04Timer, what string) {
 	case 1:
 		x.c.Logf("      handler(%s): close timer %d (expired-but-unprocessed=%v)", what, other.id, expired)
 		x.close(other)
+		if other == self && len(x.timers) < 12 && r.Bool() && !x.c.Failed() {
+			// ... and a new timer is created before the callback returns: it receives the descriptor number just released;
+			// whatever the library does with the closed timer after the callback must not land on the new one
+			if nt := x.newTimer(); nt != nil {
+				x.c.Logf("      handler(%s): ... and creates timer %d before returning", what, nt.id)
+				x.schedule(nt, time.Duration(r.Range(1, 20))*time.Millisecond, r.Bool())
+				x.createdInOwnCallbackAfterClose++
+			}
+		}
 	case 2:
 		d := time.Duration(r.Range(200, 5000)) * time.Millisecond
 		if r.Bool() {
@@ -133,6 +143,20 @@ func (x *c04World) behave(self *c04Timer, what string) {
 			if r.Bool() && !x.c.Failed() {
 				x.c.Logf("      handler(%s): ... and cancels that again", what)
 				x.cancel(self)
+			}
+		}
+	case 7:
+		if self != nil && self.repeating && self.state == tScheduled && len(x.timers) < 12 {
+			// the series ends by Close from inside its own callback, and a new timer is created before the callback returns:
+			// it receives the descriptor number just released; whatever the library does with the closed timer after the
+			// callback (the series' re-arm) must not land on the new one, and the closed timer stays closed
+			x.c.Logf("      handler(%s): closes its own repeating timer and creates a new one before returning", what)
+			x.close(self)
+			if nt := x.newTimer(); nt != nil && !x.c.Failed() {
+				if r.Bool() {
+					x.schedule(nt, time.Duration(r.Range(1, 20))*time.Millisecond, r.Bool())
+				}
+				x.createdInOwnCallbackAfterClose++
 			}
 		}
 	default:
@@ -515,6 +539,7 @@ func runC04(c *vf.Case) {
 	c.Count("schedule_calls_on_a_repeating_timer_from_its_own_callback", x.selfSchedulesInRepeating)
 	c.Count("zero_delay_schedules_after_cancelling_the_own_repeating_series", x.zeroDelayAfterOwnCancel)
 	c.Count("schedules_with_a_delay_that_is_not_a_whole_number_of_milliseconds", x.fractionalDelays)
+	c.Count("timers_created_inside_a_callback_right_after_the_timer_closed_itself", x.createdInOwnCallbackAfterClose)
 	c.Count("zero_delay_callbacks_still_due_when_the_call_returned", x.zeroDelayNotInline)
 	if x.minSlack != 0 {
 		c.Min("min_slack_ns", int64(x.minSlack))
